@@ -13,6 +13,8 @@
 #include <yaclib/async/when_any.hpp>
 #include <yaclib/coro/await.hpp>
 #include <yaclib/coro/future.hpp>
+#include <yaclib/coro/on.hpp>
+#include <yaclib/coro/shared_future.hpp>
 #include <yaclib/exe/inline.hpp>
 #include <yaclib/runtime/fair_thread_pool.hpp>
 
@@ -85,7 +87,7 @@ class Case final : public sim::CaseBase {
     promise_first = g.Flip();
     split_unique = !promise_first && g.Draw(3) == 2;
     // 1: RunShared(e, f) 2: AsyncSharedContract(e, f(promise)): the executor's job is the producer, the root is a SharedFutureOn
-    run_kind = (!promise_first && !split_unique && g.Draw(3) == 2) ? 1 + static_cast<int>(g.Draw(2)) : 0;
+    run_kind = (!promise_first && !split_unique && g.Draw(3) == 2) ? 1 + static_cast<int>(g.Draw(3)) : 0;
     by_reference = g.Draw(4) == 3;
     exec_pool = g.Flip();
     pool_workers = 1 + g.Draw(2);
@@ -114,7 +116,7 @@ class Case final : public sim::CaseBase {
   }
 
   void Describe(sim::Json& j) const final {
-    j.KV("producer", kProducerNames[producer]).KV("created_by", promise_first ? "MakeSharedPromise + Split(promise)" : (split_unique ? "MakeContract + Split(Future&&)" : (run_kind == 1 ? "RunShared(e, f)" : (run_kind == 2 ? "AsyncSharedContract(e, f)" : "MakeSharedContract"))));
+    j.KV("producer", kProducerNames[producer]).KV("created_by", promise_first ? "MakeSharedPromise + Split(promise)" : (split_unique ? "MakeContract + Split(Future&&)" : (run_kind == 1 ? "RunShared(e, f)" : (run_kind == 2 ? "AsyncSharedContract(e, f)" : (run_kind == 3 ? "coroutine returning SharedFuture (co_return / throw / stopped executor)" : "MakeSharedContract")))));
     j.KV("observers_use", by_reference ? "one SharedFuture by const reference" : "their own copies");
     j.KV("executor", exec_pool ? "proxy(pool)" : "proxy(inline)").KV("pool_workers", pool_workers).KV("producer_delay", prod_delay);
     j.Key("observers").Arr();
@@ -183,6 +185,23 @@ class Case final : public sim::CaseBase {
       ++attached[slot].calls;
       Saw(observer, op, sim::Observe(r, kOpNames[op]));
     };
+  }
+
+  // the shared state is a coroutine's: it waits for the gate the producer thread opens, then completes through final_suspend
+  static SF CoShared(Case* c, yaclib::Future<void, E> gate) {
+    co_await yaclib::Await(gate);
+    sim::RaceWrite(&c->cell, sizeof c->cell);
+    c->cell = c->id;
+    c->set_invoke = sim::Seq();
+    switch (c->producer) {
+      case kSetValue: co_return T{c->id};
+      case kSetError: co_return E{c->id};
+      case kSetException: throw sim::TaggedEx{c->id};
+      default:
+        SIM_FAULT("producer_coroutine_stopped");
+        co_await yaclib::On(yaclib::MakeInline(yaclib::StopTag{}));
+        co_return yaclib::StopTag{};
+    }
   }
 
   static yaclib::Future<> AwaitCopy(Case* c, int o, std::size_t slot, SF copy) {
@@ -420,7 +439,12 @@ class Case final : public sim::CaseBase {
           }
         });
       }
-      if (run_kind != 0) {
+      yaclib::Promise<void, E> gate_promise;
+      if (run_kind == 3) {
+        auto [gf, gp] = yaclib::MakeContract<void, E>();
+        gate_promise = std::move(gp);
+        root = CoShared(this, std::move(gf));
+      } else if (run_kind != 0) {
         root = yaclib::SharedFutureOn<T, E>{root_on}.On(nullptr);
         on_handle = &root_on;
       } else if (split_unique) {
@@ -460,7 +484,14 @@ class Case final : public sim::CaseBase {
         }
         set_return = sim::Seq();
       };
-      yaclib_std::thread prod = run_kind != 0 ? yaclib_std::thread{[] {
+      yaclib_std::thread prod = run_kind == 3 ? yaclib_std::thread{[this, gp = std::move(gate_promise)]() mutable {
+        for (std::uint32_t y = 0; y < prod_delay; ++y) {
+          sim::Yield();
+        }
+        std::move(gp).Set();
+        set_return = sim::Seq();
+      }}
+                                : run_kind != 0 ? yaclib_std::thread{[] {
       }}
                                 : split_unique ? yaclib_std::thread{[fulfil, pp = std::move(unique_promise)]() mutable {
         fulfil(std::move(pp));
